@@ -5,7 +5,14 @@
 From Coq Require Import Sorting.Permutation.
 From Perf Require Import Base.Bytes Base.B64 Base.B64Order Base.FmtPct
      Model.StatsF Model.MoreMathU Model.BenchMath Model.BenchMathSpec
-     Proofs.BenchMath Proofs.BenchMathRender Proofs.BenchMathCI Proofs.BenchMathMono.
+     Proofs.BenchMath Proofs.BenchMathRender Proofs.BenchMathCI Proofs.BenchMathMono
+     Proofs.BenchMathPerm Proofs.BenchMathSummary Proofs.BenchMathScale Proofs.B64Flocq.
+From Perf Require Base.FmtFixed.
+From Flocq Require Core BinarySingleNaN.
+From Coq Require Reals Lra.
+Notation SF2R := Flocq.IEEE754.BinarySingleNaN.SF2R.
+Notation radix2 := Flocq.Core.Zaux.radix2.
+Notation bpow := Flocq.Core.Raux.bpow.
 Local Open Scope Z_scope.
 
 (** For the assumptions that perform a test (nothing, normal), whatever the
@@ -211,6 +218,110 @@ Theorem C13_perm_p_in_unit_interval : forall x1 x2,
 Proof. exact perm_p_in_unit. Qed.
 Print Assumptions C13_perm_p_in_unit_interval.
 
+(** the specification's exact permutation p-value is symmetric in the two
+    samples (complement bijection; U(x2,x1) = n1*n2 - U(x1,x2)) *)
+Theorem C13_compare_symmetric_spec : forall x1 x2,
+  Forall ordinary (x1 ++ x2) -> perm_p x2 x1 = perm_p x1 x2.
+Proof. exact perm_p_symmetric. Qed.
+Print Assumptions C13_compare_symmetric_spec.
+
+(** ... and, like the U-test, it sees the samples only through comparisons *)
+Theorem C13_perm_p_monotone_invariant : forall f x1 x2,
+  (forall x y, In x (x1 ++ x2) -> In y (x1 ++ x2) ->
+     b64_lt (f x) (f y) = b64_lt x y /\ b64_le (f x) (f y) = b64_le x y /\ b64_eq (f x) (f y) = b64_eq x y) ->
+  perm_p (map f x1) (map f x2) = perm_p x1 x2.
+Proof. exact perm_p_monotone_invariant. Qed.
+Print Assumptions C13_perm_p_monotone_invariant.
+
+(** small untied samples: the U-test's exact path returns exactly the
+    permutation p-value. Every pair of untied ascending samples with
+    N = n1 + n2 <= 10 values is the image of a split of the ranks 1..N under an
+    order-preserving map f; the 2036 rank patterns are evaluated and the two
+    invariance theorems carry the result to every such pair. *)
+Theorem C13_p_is_exact_permutation_p_small_untied : forall N c r f,
+  2 <= N <= 10 -> In (c, r) (rank_patterns N) ->
+  (forall x y, In x (c ++ r) -> In y (c ++ r) ->
+     b64_lt (f x) (f y) = b64_lt x y /\ b64_le (f x) (f y) = b64_le x y /\ b64_eq (f x) (f y) = b64_eq x y) ->
+  utest_is_perm_p (map f c) (map f r) = true.
+Proof. exact p_is_exact_permutation_p_small_untied. Qed.
+Print Assumptions C13_p_is_exact_permutation_p_small_untied.
+
+(** rescaling both samples by 2^k (c = 2^k) without overflow or underflow
+    leaves the U-test outcome unchanged (corollary of monotone invariance; the
+    multiplication is exact) *)
+Theorem C13_compare_scale_pow2_invariant : forall k c x1 x2,
+  valid c = true -> SF2R radix2 c = bpow radix2 k ->
+  (forall x, In x (x1 ++ x2) -> scale_ok_sf k x) ->
+  utest (map (fun x => b64_mul x c) x1) (map (fun x => b64_mul x c) x2) = utest x1 x2.
+Proof. exact utest_scale_pow2. Qed.
+Print Assumptions C13_compare_scale_pow2_invariant.
+
+(** assume-nothing summary (the float64 model): each end of the interval is a
+    value of the sample or infinite. [approx_band]: the normal-approximation
+    branch of QuantileCI (n > 30, an oracle) returns a band around the median
+    position; checked on every recorded oracle value by the correspondence run. *)
+Theorem C13_median_ci_ends_are_sample_values_or_inf : forall choose_o approx_o,
+  (forall n ci, approx_o n = Some ci -> 0 <= q_lo ci <= n / 2 /\ n / 2 + 1 <= q_hi ci <= n + 1) ->
+  forall s conf sm,
+  s_values s <> [] ->
+  summary_nothing choose_o approx_o s conf = Some sm ->
+  (sm_lo sm = f_inf true \/ In (sm_lo sm) (s_values s))
+  /\ (sm_hi sm = f_inf false \/ In (sm_hi sm) (s_values s)).
+Proof. exact summary_nothing_ends. Qed.
+Print Assumptions C13_median_ci_ends_are_sample_values_or_inf.
+
+(** a warning exactly when an end is infinite, carrying medianSamples' count *)
+Theorem C13_median_ci_warning_iff_infinite : forall choose_o approx_o s conf sm,
+  summary_nothing choose_o approx_o s conf = Some sm ->
+  (sm_warn sm = [] <-> b64_is_inf (sm_lo sm) || b64_is_inf (sm_hi sm) = false)
+  /\ (b64_is_inf (sm_lo sm) || b64_is_inf (sm_hi sm) = true ->
+      exists ge m, sm_warn sm = [WNeedCI ge m] /\ median_samples choose_o approx_o conf = Some (ge, m)).
+Proof. exact summary_nothing_warning_iff_infinite. Qed.
+Print Assumptions C13_median_ci_warning_iff_infinite.
+
+(** the ends bracket the middle of the sample: lo <= x_(ceil(n/2)) and
+    x_(floor(n/2)+1) <= hi. PARTIAL with respect to "the ends bracket the
+    centre": that the centre itself (binary64 R8 interpolation a + frac*(b-a)
+    at 1/2) lies between these two middle order statistics is not proved; it is
+    checked on every case (prop_ok: lm <= centre <= um). *)
+Theorem C13_median_ci_brackets_partial : forall choose_o approx_o,
+  (forall n ci, approx_o n = Some ci -> 0 <= q_lo ci <= n / 2 /\ n / 2 + 1 <= q_hi ci <= n + 1) ->
+  forall vs t conf sm,
+  vs <> [] -> Forall nonnan vs ->
+  summary_nothing choose_o approx_o (new_sample vs t) conf = Some sm ->
+  let xs := sort_f vs in
+  let n := zlen xs in
+  b64_le (sm_lo sm) (nth_f xs ((n - 1) / 2)) = true
+  /\ b64_le (nth_f xs (n / 2)) (sm_hi sm) = true.
+Proof. exact summary_nothing_brackets_middle. Qed.
+Print Assumptions C13_median_ci_brackets_partial.
+
+(** C13's printer and the shared FmtFixed print the same scaled integer *)
+Theorem C13_fmt_scaled_is_fmtfixed : forall prec m e,
+  scaled_abs (Z.of_nat prec) m e = FmtFixed.fx_mag m e prec.
+Proof. exact scaled_abs_is_fx_mag. Qed.
+Print Assumptions C13_fmt_scaled_is_fmtfixed.
+
+(** KNOWN FINDING C13_normal_compare_overflow_panic (dependency go-moremath):
+    "a comparison reports both sizes and a p-value in [0,1]" is refuted for the
+    normal model on finite samples whose (variance/n)^2 overflows: the degrees
+    of freedom are NaN and the call panics inside betainc *)
+Theorem C13_normal_compare_overflow_panic_refuted :
+  exists x1 x2 t,
+    Forall (fun x => b64_is_finite x = true) (x1 ++ x2)
+    /\ b64_is_nan (w_dof (welch_stats x1 x2)) = true
+    /\ forall uf p_o, compare uf (welch_outcome p_o) ANormal (new_sample x1 t) (new_sample x2 t) = None.
+Proof. exact normal_compare_overflow_panic_refuted. Qed.
+Print Assumptions C13_normal_compare_overflow_panic_refuted.
+
+(** outside that domain the normal comparison always returns *)
+Theorem C13_compare_normal_total : forall uf p_o s1 s2,
+  tcdf_panics (w_dof (welch_stats (s_values s1) (s_values s2)))
+              (w_t (welch_stats (s_values s1) (s_values s2))) = false ->
+  exists c, compare uf (welch_outcome p_o) ANormal s1 s2 = Some c.
+Proof. exact compare_normal_total. Qed.
+Print Assumptions C13_compare_normal_total.
+
 (** KNOWN FINDING C13_moremath_tied_exact_path (dependency go-moremath, outside
     /repo): "p in [0,1], symmetric, equal to the exact permutation p" is refuted
     for the U-test AssumeNothing.Compare calls: {2} vs {1,1,1} reports 3/2,
@@ -260,3 +371,26 @@ Example C13_example_median_ci :
   /\ quantile_ci_exact 5 95 100 = Some (0, 5, 100 * 31)   (* 5 values cannot give 95% between sample values: (-inf, x_(5)) *)
   /\ need_samples (95, 100) = Some 6.
 Proof. vm_compute. repeat split. Qed.
+
+(** the hypotheses of the new theorems are satisfiable *)
+Example C13_example_approx_band :
+  let approx_o := fun n => if 31 <=? n then Some (mkQci (n / 2 - 3) (n / 2 + 4) f_half) else None in
+  forall n ci, approx_o n = Some ci -> 0 <= q_lo ci <= n / 2 /\ n / 2 + 1 <= q_hi ci <= n + 1.
+Proof.
+  intros approx_o n ci. subst approx_o. cbv beta.
+  destruct (Z.leb_spec 31 n) as [H|H]; [|intros E; discriminate E].
+  intros [= <-]. cbn [q_lo q_hi]. Z.div_mod_to_equations; lia.
+Qed.
+
+Example C13_example_scale :
+  valid (b64_of_Z 8) = true /\ SF2R radix2 (b64_of_Z 8) = bpow radix2 3
+  /\ scale_ok_sf 3 (fl 5) /\ scale_ok_sf 3 (b64_of_ZE 3 (-1000))
+  /\ In ([fl 1; fl 3], [fl 2; fl 4; fl 5]) (rank_patterns 5)
+  /\ Forall ordinary ([fl 1; fl 3] ++ [fl 2; fl 4; fl 5]).
+Proof.
+  split; [reflexivity|]. split.
+  - cbn. unfold Flocq.Core.Defs.F2R. cbn. Lra.lra.
+  - repeat split; try reflexivity; try (cbn; lia).
+    + vm_compute. tauto.
+    + repeat constructor; discriminate.
+Qed.
